@@ -218,6 +218,12 @@ def _container_kind(mod, fn, cont):
             if isinstance(tg, ast.Name) and tg.id == cont.id:
                 return "module", text
         return None, text
+    if isinstance(cont, ast.Attribute) and isinstance(cont.value, ast.Name) and cont.value.id not in ("self", "cls"):
+        # ClassName.attr: a class-level container named through its class
+        for st in mod.tree.body:
+            if isinstance(st, ast.ClassDef) and st.name == cont.value.id:
+                return "class", text
+        return None, text
     if isinstance(cont, ast.Attribute) and isinstance(cont.value, ast.Name) and cont.value.id in ("self", "cls"):
         cls = getattr(fn, "_parent", None)
         while cls is not None and not isinstance(cls, ast.ClassDef):
